@@ -51,13 +51,16 @@ def run(ctx):
             elif destk == 'same-kind':
                 # what an earlier run left: same type, the mode this run would give, but (for devices) another device number
                 if kind == 'sock': destk = 'fifo'; tree.append(dict(p=dst_rel, k='fifo', mode=0o600))
-                else: tree.append(dict(p=dst_rel, k=kind, mode=mode & ~umask & 0o7777, rdev=(rdev[0], rdev[1] ^ 2) if kind in ('chr', 'blk') else (0, 0), exact_mode=True))
+                elif i % 2: tree.append(dict(p=dst_rel, k=kind, mode=mode & ~umask & 0o7777, rdev=(rdev[0], rdev[1] ^ 2) if kind in ('chr', 'blk') else (0, 0), exact_mode=True))
+                else:       # the SAME device number (what an earlier run of this very copy left), but another mode: a distinct node, to be replaced
+                    wm = mode & ~umask & 0o7777
+                    tree.append(dict(p=dst_rel, k=kind, mode=0o600 if wm != 0o600 else 0o640, rdev=rdev, exact_mode=True))
             try:
                 scen.materialise(root, tree)
             except OSError as e:
                 ctx.count('materialise_failed'); continue
             before_src = os.lstat(f'{root}/{src_rel}')
-            argv = ['--driver', driver] + (['-n'] if noclob else []) + argv
+            argv = ['--driver', driver] + (['-n'] if noclob else []) + rng.choice([[], [], [], ['--no-progress'], ['--fsync'], ['--no-progress', '--reflink=never'], ['-v']]) + argv
             r = scen.run_xcp(root, argv, umask=umask, timeout=30)
             ctx.count(f'kind.{kind}'); ctx.count(f'dest.{destk}'); ctx.count(f'exit.{r.cls}'); ctx.count('noclobber' if noclob else 'clobber'); ctx.count(f'umask.{oct(umask)}')
             ctx.case((kind, mode, rdev, umask, intree, destk, noclob, driver), True,
@@ -129,6 +132,37 @@ def run(ctx):
                     ctx.cov['disagreements_checked'] += 1
                     ctx.violation(f'case-{i}-corr.json', dict(argv=argv, kind=kind, dest=destk, model=m, exit=r.cls, stderr=r.stderr[-300:], correspondence='Operation::Special + copy_node vs Xcp.specialProgram'),
                                   f'model/implementation disagree on a {kind} onto {destk}: model {m!r}, exit {r.cls}', no_input=True)
+        # ---- nodes created while OTHER threads finish regular files under --no-perms: whatever those threads do to find out the
+        # default mode, a node's mode is still the source's bits limited by the umask
+        for driver in ('parfile', 'parblock'):
+            for sub in ('S', 'D', 'x'):
+                p = os.path.join(root, sub)
+                if os.path.isdir(p) and not os.path.islink(p): shutil.rmtree(p, ignore_errors=True)
+                elif os.path.lexists(p): os.unlink(p)
+            tree = [dict(p='S', k='dir', mode=0o755)]
+            for j in range(6):
+                tree.append(dict(p=f'S/d{j}', k='dir', mode=0o755))
+                for k in range(5):
+                    tree.append(dict(p=f'S/d{j}/p{k}', k='fifo', mode=0o666))
+                for k in range(20 if ctx.quick else 60):
+                    tree.append(dict(p=f'S/d{j}/f{k}', k='file', mode=0o600, data=[('seg', 10, j * 100 + k + 1)]))
+            scen.materialise(root, tree)
+            for plan in ([], ['stall umask 150000'], ['stall umask 50000', 'stall mknodat 50000']):
+                shutil.rmtree(root + '/D', ignore_errors=True)
+                argv = ['-r', '-T', '--no-perms', '--driver', driver, '--workers', '4', 'S', 'D']
+                r = scen.run_xcp(root, argv, umask=0o022, timeout=120, plan=plan or None)
+                ctx.count(f'noperms_nodes.exit.{r.cls}'); ctx.case(('noperms-nodes', driver, tuple(plan)), True)
+                wrong = []
+                for dp, dn, fn in os.walk(root + '/D'):
+                    for f in fn:
+                        st = os.lstat(os.path.join(dp, f))
+                        if stat.S_ISFIFO(st.st_mode) and stat.S_IMODE(st.st_mode) != 0o644:
+                            wrong.append((os.path.join(dp, f)[len(root):], oct(stat.S_IMODE(st.st_mode))))
+                if r.cls != '0':
+                    ctx.violation(f'noperms-nodes-{driver}-exit.json', dict(argv=argv, plan=plan, stderr=r.stderr[-300:]), 'copy of a tree with FIFOs under --no-perms failed', no_input=True)
+                elif wrong:
+                    ctx.violation(f'noperms-nodes-{driver}-{len(plan)}.json', dict(argv=argv, plan=plan, umask='0o22', source_mode='0o666', wrong=wrong[:10], count=len(wrong)),
+                                  f'C14: {len(wrong)} FIFOs have mode {wrong[0][1]}, not 0666 & ~022, when copied next to regular files under --no-perms ({driver}, plan {plan})')
         # ---- --no-clobber and an entry that appears AFTER the walker's probe (two sources with one base name: the first creates
         # out/x while the second is already queued): whoever creates out/x first, it is never unlinked or replaced
         for driver in ('parfile', 'parblock'):
@@ -148,7 +182,7 @@ def run(ctx):
                     ctx.violation(f'noclobber-race-{driver}-{len(plan)}.json', dict(argv=argv, plan=plan, exit=r.cls, unlinks=len(unl), mknods=len(mk), stderr=r.stderr[-300:]),
                                   f'C14: under --no-clobber the entry D/x, created during this run by the first source, was removed/replaced by the second ({driver}, plan {plan}, exit {r.cls})')
     ctx.cov['rule'] = ('kind {fifo, socket, chr, blk} x mode (incl. set-id/sticky) x major/minor x umask {0, 022} x sole source / inside a tree x destination '
-                       '{absent, file, fifo, live link, dangling link, directory, node of the same type and mode with another device number} x -n x driver; two sources with one base name under -n. distinct = distinct tuple')
+                       '{absent, file, fifo, live link, dangling link, directory, node of the same type and mode with another device number} x -n x driver; two sources with one base name under -n; FIFOs next to regular files under --no-perms with stalled umask(2). distinct = distinct tuple')
     ctx.assumptions += ['runs as root with CAP_MKNOD']
 
 
